@@ -67,6 +67,9 @@ type Chain struct {
 	Policy Policy
 	// Counters accumulate what happened so far.
 	Counters Counters
+	// NoHealMutants switches off the state-root healing of Mutations (see Mutant.Healed): faster, but a
+	// missing check in /repo can then hide behind the mutant's stale state root.
+	NoHealMutants bool
 	// LastRejected is the step whose block the real code refused in the most recent NextSlot call (nil if
 	// that call did not end in ErrNotAccepted); see RejectedError.
 	LastRejected *Step
